@@ -1442,7 +1442,15 @@ func gatedRestartWhileCallbackBusy() []int64 {
 	})
 	if !waitFor(3*time.Second, clientWrote(fake, 702)) {
 		close(release)
-		return []int64{-8, 2}
+		n := fake.CountWritten(func(d []byte) bool { return true })
+		first := int64(-1)
+		fake.CountWritten(func(d []byte) bool {
+			if first == -1 {
+				first = callID(d)
+			}
+			return true
+		})
+		return []int64{-8, 2, int64(n), first, b2i(cp.IsConnected())}
 	}
 	close(release) // the first session's callback returns only now
 	time.Sleep(30 * time.Millisecond)
@@ -2059,6 +2067,162 @@ func gatedServerSendFromDisconnectHandler() []int64 {
 	return []int64{0, refused, int64(strayCalls), b2i(wrote), int64(n991), int64(calls), b2i(got == "r992")}
 }
 
+// scenario 44 (C16, C08): Stop and Start while the message pump of the first session is still busy (inside the
+// application's cancel callback of a request that timed out).  Whatever the restarted endpoint does while that pump
+// winds down, the new session is a fresh one: its request is written once and gets its own timeout.
+func gatedRestartWhilePumpBusy() []int64 {
+	installIDGen()
+	fake := fakews.NewClient()
+	disp := ocppj.NewDefaultClientDispatcher(ocppj.NewFIFOClientQueue(0))
+	disp.SetTimeout(150 * time.Millisecond)
+	cl := ocppj.NewClient("cp1", fake, disp, nil, core16.Profile)
+	cl.SetDialect(ocpp.V16)
+	cl.SetResponseHandler(func(r ocpp.Response, id string) {})
+	cl.SetErrorHandler(func(e *ocpp.Error, d interface{}) {})
+	cl.SetRequestHandler(func(r ocpp.Request, id, action string) {})
+	entered := make(chan struct{}, 1)
+	release := make(chan struct{})
+	var once sync.Once
+	var mu sync.Mutex
+	cancelled := map[string]int{}
+	cl.SetOnRequestCanceled(func(id string, r ocpp.Request, e *ocpp.Error) {
+		once.Do(func() { entered <- struct{}{}; <-release })
+		mu.Lock()
+		cancelled[id]++
+		mu.Unlock()
+	})
+	if err := cl.Start("ws://fake"); err != nil {
+		return []int64{-2}
+	}
+	setNextID("1001")
+	_ = cl.SendRequest(core16.NewDataTransferRequest("v1"))
+	select {
+	case <-entered: // 1001 timed out; the pump sits in the cancel callback
+	case <-time.After(3 * time.Second):
+		return []int64{-4}
+	}
+	if !within(3*time.Second, cl.Stop) {
+		close(release)
+		return []int64{-8, 1}
+	}
+	fake.TakeWritten()
+	started := make(chan error, 1)
+	go func() { started <- cl.Start("ws://fake") }()
+	early := false
+	select {
+	case <-started: // the restart did not wait for the old pump
+		early = true
+	case <-time.After(300 * time.Millisecond):
+	}
+	send := func() bool {
+		setNextID("1002")
+		if err := cl.SendRequest(core16.NewDataTransferRequest("v2")); err != nil {
+			return false
+		}
+		return waitFor(3*time.Second, clientWrote(fake, 1002))
+	}
+	wrote := false
+	if early {
+		wrote = send()
+		close(release)
+	} else {
+		close(release)
+		select {
+		case <-started:
+		case <-time.After(3 * time.Second):
+			return []int64{-8, 2}
+		}
+		wrote = send()
+	}
+	timedOut := waitFor(2*time.Second, func() bool { mu.Lock(); defer mu.Unlock(); return cancelled["1002"] >= 1 })
+	time.Sleep(200 * time.Millisecond)
+	n := fake.CountWritten(func(d []byte) bool { return callOnlyID(d) == 1002 })
+	stopped := within(3*time.Second, cl.Stop)
+	mu.Lock()
+	defer mu.Unlock()
+	if wrote && timedOut && n == 1 && cancelled["1002"] == 1 && cancelled["1001"] == 1 && stopped {
+		return []int64{1, b2i(early)}
+	}
+	return []int64{0, b2i(early), b2i(wrote), b2i(timedOut), int64(n), int64(cancelled["1002"]), int64(cancelled["1001"]), b2i(stopped)}
+}
+
+// scenario 45 (C16, C11): the same on a server endpoint: Stop and Start while the message pump of the first session is
+// still inside the application's cancel callback.  A client that connects to the restarted endpoint is served: its
+// request is written once (the old pump must not wipe the new session's queues when it finally leaves).
+func gatedServerRestartWhilePumpBusy() []int64 {
+	installIDGen()
+	fake := fakews.NewServer()
+	disp := ocppj.NewDefaultServerDispatcher(ocppj.NewFIFOQueueMap(0))
+	disp.SetTimeout(150 * time.Millisecond)
+	srv := ocppj.NewServer(fake, disp, nil, core16.Profile)
+	srv.SetDialect(ocpp.V16)
+	srv.SetResponseHandler(func(c ws_Channel, r ocpp.Response, id string) {})
+	srv.SetErrorHandler(func(c ws_Channel, e *ocpp.Error, d interface{}) {})
+	srv.SetRequestHandler(func(c ws_Channel, r ocpp.Request, id, action string) {})
+	srv.SetDisconnectedClientHandler(func(c ws_Channel) {})
+	entered := make(chan struct{}, 1)
+	release := make(chan struct{})
+	var once sync.Once
+	srv.SetCanceledRequestHandler(func(clientID string, requestID string, r ocpp.Request, e *ocpp.Error) {
+		once.Do(func() { entered <- struct{}{}; <-release })
+	})
+	go srv.Start(0, "/{ws}")
+	if !waitFor(2*time.Second, disp.IsRunning) {
+		return []int64{-2}
+	}
+	fake.Connect("A")
+	setNextID("1101")
+	_ = srv.SendRequest("A", core16.NewDataTransferRequest("a1"))
+	select {
+	case <-entered: // 1101 timed out; the pump sits in the cancel callback
+	case <-time.After(3 * time.Second):
+		return []int64{-4}
+	}
+	if !within(3*time.Second, srv.Stop) {
+		close(release)
+		return []int64{-8, 1}
+	}
+	fake.TakeWritten()
+	go srv.Start(0, "/{ws}")
+	early := waitFor(300*time.Millisecond, disp.IsRunning)
+	serve := func() bool {
+		fake.Connect("A")
+		setNextID("1102")
+		if err := srv.SendRequest("A", core16.NewDataTransferRequest("a2")); err != nil {
+			return false
+		}
+		return true
+	}
+	accepted := false
+	if early {
+		accepted = serve()
+		time.Sleep(20 * time.Millisecond)
+		close(release)
+	} else {
+		close(release)
+		if !waitFor(3*time.Second, disp.IsRunning) {
+			return []int64{-8, 2}
+		}
+		accepted = serve()
+	}
+	wrote := waitFor(2*time.Second, func() bool {
+		return fake.CountWritten(func(t string, d []byte) bool { return t == "A" && callOnlyID(d) == 1102 }) >= 1
+	})
+	time.Sleep(50 * time.Millisecond)
+	n := fake.CountWritten(func(t string, d []byte) bool { return callOnlyID(d) == 1102 })
+	// the session goes on: the reply is accepted and the next request is written
+	_ = fake.Inject("A", []byte(`[3,"1102",{"status":"Accepted","data":"r"}]`))
+	setNextID("1103")
+	next := srv.SendRequest("A", core16.NewDataTransferRequest("a3")) == nil && waitFor(2*time.Second, func() bool {
+		return fake.CountWritten(func(t string, d []byte) bool { return t == "A" && callOnlyID(d) == 1103 }) >= 1
+	})
+	stopped := within(3*time.Second, srv.Stop)
+	if accepted && wrote && n == 1 && next && stopped {
+		return []int64{1, b2i(early)}
+	}
+	return []int64{0, b2i(early), b2i(accepted), b2i(wrote), int64(n), b2i(next), b2i(stopped)}
+}
+
 func gatedEval(in []int64) []int64 {
 	switch in[0] {
 	case 7:
@@ -2119,6 +2283,10 @@ func gatedEval(in []int64) []int64 {
 		return gatedTruncatedForeignReply()
 	case 38:
 		return gatedServerSendFromDisconnectHandler()
+	case 44:
+		return gatedRestartWhilePumpBusy()
+	case 45:
+		return gatedServerRestartWhilePumpBusy()
 	}
 	return []int64{-1}
 }
